@@ -357,11 +357,13 @@ void encode_imm(struct instr *instrc) {
     // special condition for to mov instruction
   } else if (TYPE(instrc->key, DATA_TRANSFER))
     encode_imm_data_transfer(instrc);
+  // a memory destination sized with 'word' takes a 16-bit immediate too
+  bool word_mem = instrc->opd[0].type == 'm' && instrc->keyword.is_word;
   // mask all bits except for the most significant byte
-  if ((instrc->opd[0].reg & MODE_MASK) < reg32) {
+  if ((instrc->opd[0].reg & MODE_MASK) < reg32 || word_mem) {
     DO_NOT_PAD(instrc->cons, instrc->reduced_imm, MAX_UNSIGNED_16BIT);
     if (((instrc->opd[0].reg & MODE_MASK) == reg16 ||
-         (instrc->opd[0].reg & MODE_MASK) == ext16) &&
+         (instrc->opd[0].reg & MODE_MASK) == ext16 || word_mem) &&
         instrc->cons <= MAX_UNSIGNED_8BIT)
       instrc->reduced_imm = false;
   }
